@@ -8,8 +8,8 @@ CONSTANTS Systems, NDense, Emit, HotStride      \* HotStride[s]: every n-th one-
 QuickStride == [s \in {"q", "t", "qq", "qt"} |-> IF s = "q" THEN 1 ELSE 16]
 ThoroughStride == [s \in {"q", "t", "qq", "qt"} |-> IF s \in {"q", "t"} THEN 1 ELSE 23]
 
-VARIABLES sys, kind, inp
-vars == <<sys, kind, inp>>
+VARIABLES sys, kind, inp, hs      \* hs: row-major computational HS matrix of a gate input, computed by the Prepare step
+vars == <<sys, kind, inp, hs>>
 
 SysOf(s) == CASE s = "q" -> <<2>> [] s = "t" -> <<3>> [] s = "qq" -> <<2, 2>> [] s = "qt" -> <<2, 3>>
 Sq(x) == x * x
@@ -22,23 +22,29 @@ Init == /\ sys \in Systems
         /\ \/ kind = "gate" /\ inp \in {OneHotG(sys, pr[1], pr[2]) : pr \in {qq \in (1..N2(sys)) \X (1..N2(sys)) : ((qq[1] - 1) * N2(sys) + qq[2] - 1) % HotStride[sys] = 0}} \cup {DenseG(sys, k) : k \in 1..NDense}
            \/ kind = "vec" /\ inp \in {VUnit(N2(sys), a) : a \in 1..N2(sys)} \cup {DenseV(sys, k) : k \in 1..NDense}
            \/ kind = "kraus" /\ sys = "q" /\ inp \in {"h", "s", "x90", "ad", "dep", "id"}
-Next == UNCHANGED vars /\ FALSE
+        /\ hs = <<>>
+Next == /\ hs = <<>> /\ kind \in {"gate", "kraus"}
+        /\ hs' = HSComp(IF kind = "gate" THEN inp ELSE QGate(inp), SysOf(sys), TRUE)
+        /\ UNCHANGED <<sys, kind, inp>>
 Spec == Init /\ [][Next]_vars
 
 S == SysOf(sys)
+DD == DimOf(S)
+Ready == hs # <<>>
 \* the three definitions of the Choi matrix agree
-ChoiDefinitionsAgree == kind = "gate" =>
-    LET c == ChoiAlg(inp, S) IN c = ChoiStd(inp, S) /\ c = ChoiReshuffle(inp, S)
+ChoiDefinitionsAgree == (kind = "gate" /\ Ready) =>
+    LET c == ChoiAlg(inp, S) IN c = ChoiStd(hs, DD) /\ c = ChoiReshuffle(hs, DD)
 \* a real H-coordinate matrix is a Hermiticity-preserving map: its Choi matrix is Hermitian
 ChoiHermitian == kind = "gate" => IsHermitian(ChoiAlg(inp, S))
 \* conversion followed by its inverse is the identity
 ChoiRoundTrip == kind = "gate" =>
     GFromChoi(ChoiAlg(inp, S), S) = [a \in 1..Len(inp) |-> [b \in 1..Len(inp) |-> <<inp[a][b], RZero>>]]
 \* row- and column-major computational forms are transposes of each other's index order
-RowColConsistent == kind = "gate" =>
-    LET d == DimOf(S) hr == HSComp(inp, S, TRUE) hc == HSComp(inp, S, FALSE)
-        p(k) == (IdxCol(d, k)[1] - 1) * d + IdxCol(d, k)[2]
-    IN \A r, c \in 1..(d * d) : hc[r][c] = hr[p(r)][p(c)]
+\* one column-major entry recomputed from the action of the map (spot check of the re-indexing)
+RowColConsistent == (kind = "gate" /\ Ready) =>
+    LET hc == HSColFromRow(hs, DD)
+        img == Act(inp, Eij(DD, IdxCol(DD, 2)[1], IdxCol(DD, 2)[2]), S)
+    IN \A r \in 1..(DD * DD) : hc[r][2] = img[IdxCol(DD, r)[1]][IdxCol(DD, r)[2]]
 \* vectors: matrix -> coordinates -> matrix
 VecRoundTrip == kind = "vec" => OpH(FromH(inp, BasisOf(S)), S) = inp
 VecHermitian == kind = "vec" => IsHermitian(FromH(inp, BasisOf(S)))
@@ -46,12 +52,12 @@ VecHermitian == kind = "vec" => IsHermitian(FromH(inp, BasisOf(S)))
 KrausSet(n) == CASE n = "h" -> <<<<U_H>>, R(1, 2)>> [] n = "s" -> <<<<U_S>>, ROne>> [] n = "x90" -> <<<<U_X90>>, R(1, 2)>>
                  [] n = "ad" -> <<<<AD0, AD1>>, R(1, 25)>> [] n = "id" -> <<<<U_I>>, ROne>>
                  [] n = "dep" -> <<<<CMatScale(RI(1), U_I)>>, ROne>>
-KrausIsHS == (kind = "kraus" /\ inp # "dep") =>
-    HSFromKraus(KrausSet(inp)[1], KrausSet(inp)[2]) = HSComp(QGate(inp), <<2>>, TRUE)
+KrausIsHS == (kind = "kraus" /\ inp # "dep" /\ Ready) =>
+    HSFromKraus(KrausSet(inp)[1], KrausSet(inp)[2]) = hs
 
 EmitCase == IF ~Emit THEN TRUE
-    ELSE IF kind = "gate" THEN PrintT(ToJson([kind |-> "gate", sys |-> S, G |-> inp, choi |-> ChoiAlg(inp, S),
-                                              hsrow |-> HSComp(inp, S, TRUE), hscol |-> HSComp(inp, S, FALSE), process |-> ProcessMatrix(inp, S)]))
+    ELSE IF kind = "gate" THEN (IF Ready THEN PrintT(ToJson([kind |-> "gate", sys |-> S, G |-> inp, choi |-> ChoiAlg(inp, S),
+                                              hsrow |-> hs, hscol |-> HSColFromRow(hs, DD), process |-> ProcessMatrix(hs, DD)])) ELSE TRUE)
     ELSE IF kind = "vec" THEN PrintT(ToJson([kind |-> "vec", sys |-> S, x |-> inp, mat |-> FromH(inp, BasisOf(S))]))
-    ELSE PrintT(ToJson([kind |-> "kraus", sys |-> <<2>>, name |-> inp, G |-> QGate(inp), hsrow |-> HSComp(QGate(inp), <<2>>, TRUE)]))
+    ELSE IF Ready THEN PrintT(ToJson([kind |-> "kraus", sys |-> <<2>>, name |-> inp, G |-> QGate(inp), hsrow |-> hs])) ELSE TRUE
 =============================================================================
